@@ -114,6 +114,7 @@ func (f LeveldbDiskStorage) DeleteTable(tbl *btapb.Table) {
 	if err := os.Remove(path + ".table.proto"); err != nil && !os.IsNotExist(err) {
 		f.errLog(err, "os.Remove %q", path+".table.proto")
 	}
+	verifYield("disk.delete.undefined")
 	if err := os.RemoveAll(path); err != nil {
 		f.errLog(err, "os.RemoveAll %q", path)
 	}
